@@ -14,7 +14,13 @@ git apply "$D/patch.diff" || { echo "{\"dir\":\"$D\",\"applies\":false}"; exit 1
 BUILD=ok; go build ./... >/dev/null 2>&1 || BUILD=fail
 # the suite uses fixed ports: when other suites run on the machine some tests fail with "address in use".
 # A test counts as a new failure only if it also fails when re-run on its own (up to 3 tries).
-timeout 1700 go test -vet=off -count=1 -timeout 25m -json ./... > "$WT/.suite.json" 2>/dev/null
+# run in a private network namespace when possible, so that several confirmations may run side by side
+NS=""; unshare -rn true 2>/dev/null && NS="unshare -rn bash -c"
+if [ -n "$NS" ]; then
+  unshare -rn bash -c 'ip link set lo up; timeout 1700 go test -vet=off -count=1 -timeout 25m -json ./...' > "$WT/.suite.json" 2>/dev/null
+else
+  timeout 1700 go test -vet=off -count=1 -timeout 25m -json ./... > "$WT/.suite.json" 2>/dev/null
+fi
 SUITE=$(python3 - "$WT/.suite.json" <<'PY'
 import json, subprocess, sys
 fails = []
